@@ -6,11 +6,12 @@ KF_PTR = 'C15-ptr-right-operand'
 MAN = os.environ.get('VF_KF_MANUAL') == '1'
 KIND = {'U': 0, 'UI': 5, 'I': 6, 'D': 7, 'T': 8, 'F': 9, 'NUL': 10}
 def cls(name):
-    """'U' 'NUL' 'T' 'F' 'UI' 'I' 'D' | 'S0'..'S2' | 'A0'..'A2' | 'P_<class>'"""
+    """'U' 'NUL' 'T' 'F' 'UI' 'I' 'D' | 'S0'..'S2' | 'A0'..'A2' | 'O0'..'O2' 'O12' | 'P_<class>'"""
     d = {'K': 0, 'LEN': 1, 'N': 1, 'TK': 5}
     ptr = name.startswith('P_')
     h = name[2:] if ptr else name
     if h[0] == 'A' and h[1:].isdigit(): k = 3; d['N'] = int(h[1:])
+    elif h[0] == 'O' and h[1:].isdigit(): k = 2; d['N'] = int(h[1:])        # O12: two members, the first removed again
     elif h[0] == 'S' and h[1:].isdigit(): k = 4; d['LEN'] = int(h[1:])
     else: k = KIND[h]
     if ptr: d['K'] = 1; d['TK'] = k
@@ -18,7 +19,7 @@ def cls(name):
     return d
 def lkind(x, y): return x['TK'] if x['K'] == 1 else x['K']
 def rkind(x, y): return y['TK'] if (x['K'] == 1 and y['K'] == 1) else y['K']
-B = {'Dispose': 4, 'Copy': 50, 'IsEqual|IsLess|IsGreater|ref_.*': 4, 'h_.*|mk.*': 25}
+B = {'Dispose': 4, 'Copy': 50, 'IsEqual|IsLess|IsGreater|ref_.*': 4, 'h_.*|mk.*': 25, 'Hash|Count|find|generateHash|resize|SetToZero': 20}
 def Q(entry, names, kf_only=None, **kw):
     d = {}
     cs = [cls(n) for n in names]
@@ -36,12 +37,12 @@ def Q(entry, names, kf_only=None, **kw):
 def queries(tier):
     q = tier == 'quick'
     qs = []
-    allc = ['U', 'NUL', 'T', 'F', 'UI', 'I', 'D', 'S0', 'S1', 'S2', 'A0', 'A1', 'A2', 'P_UI', 'P_D', 'P_S1', 'P_A1', 'P_U', 'P_NUL']
-    pc = ['U', 'NUL', 'T', 'F', 'UI', 'I', 'D', 'S1', 'S2', 'A1', 'A2', 'P_UI', 'P_S1'] if q else allc
+    allc = ['U', 'NUL', 'T', 'F', 'UI', 'I', 'D', 'S0', 'S1', 'S2', 'A0', 'A1', 'A2', 'O0', 'O1', 'O2', 'O12', 'P_UI', 'P_D', 'P_S1', 'P_A1', 'P_O1', 'P_U', 'P_NUL']
+    pc = ['U', 'NUL', 'T', 'F', 'UI', 'I', 'D', 'S1', 'S2', 'A1', 'A2', 'O1', 'O2', 'P_UI', 'P_S1'] if q else allc
     for a in pc:
         for b in pc:
             qs.append(Q('h_pair', [a, b]))
-    tc = ['U', 'UI', 'D', 'S1', 'A1'] if q else ['U', 'NUL', 'T', 'UI', 'I', 'D', 'S1', 'S2', 'A1', 'A2', 'P_UI']
+    tc = ['U', 'UI', 'D', 'S1', 'A1', 'O1'] if q else ['U', 'NUL', 'T', 'UI', 'I', 'D', 'S1', 'S2', 'A1', 'A2', 'O1', 'O2', 'P_UI']
     for a in tc:
         for b in tc:
             for c in tc:
@@ -52,7 +53,7 @@ def queries(tier):
     for t in (['P_UI', 'P_UI', 'P_UI'], ['P_UI', 'P_S1', 'P_UI'], ['P_D', 'P_UI', 'P_A1'], ['P_S1', 'P_S2', 'P_S1']):
         qs.append(Q('h_trans', t))
     # the finding itself: one pair per left kind that outranks the right one
-    for a, b in (('NUL', 'UI'), ('D', 'I'), ('S1', 'A1'), ('UI', 'U'), ('T', 'S1')):
+    for a, b in (('NUL', 'UI'), ('D', 'I'), ('S1', 'A1'), ('UI', 'U'), ('T', 'S1'), ('A1', 'O1')):
         qs.append(Q('h_pair', [a, b], kf_only=KF_EQ))
     for a, b in (('UI', 'P_UI'), ('P_UI', 'UI'), ('P_S1', 'S1')):
         qs.append(Q('h_pair', [a, b], kf_only=KF_PTR))
